@@ -281,7 +281,7 @@ func init() {
 		ID:    "C16",
 		Level: "exploration",
 		Rule: "case = (merged schema of a world with <=1 (thorough 2) atoms, introspection operation); operations: the standard introspection query (the gateway's own text and graphql-js's), every selection tree with <=K fields (K=3 quick, 4 thorough; " +
-			"ofType depth<=3, includeDeprecated omitted/true) under __schema and under __type(name:) for every type name and an unknown name, by literal and by variable, with aliases/fragments decorations, and introspection mixed with a data field; " +
+			"ofType depth<=3, includeDeprecated omitted/true) under __schema and under __type(name:) for every type name and an unknown name, by literal and by variable, with aliases/fragments decorations, one field selected twice with different includeDeprecated arguments, two directives on one selection (also one on a fragment and one on the field inside), and introspection mixed with a data field; " +
 			"oracle: answer == gqlref.Introspect over the merged schema captured from the real merger (lists compared as sets), __type(name:X) == the types entry named X, and both a standard client (FromIntrospection) and another gateway's " +
 			"introspector rebuild a schemacanon-equal schema from the standard query's answer, and every operation with <=2 fields (plus node lookups) is accepted by the gateway's validation iff it is valid against the schema rebuilt from the gateway's own answer; non-trivial = every case",
 		Assumptions: []string{"gqlref.IntrospectResolver is the specification-shaped expected answer (2018 shape of gqlparser's prelude)", "list order is not compared"},
@@ -343,6 +343,28 @@ func init() {
 				for _, x := range g.gen("__Type", 2, 3) {
 					cases = append(cases, Decorate(f.Merged, "{ __type(name: \"N1\") { "+x.s+" } }")...)
 				}
+				// one field selected twice with different arguments (each selection answers for itself), and
+				// two directives deciding about one selection (every one of them has to agree)
+				for _, q := range []string{
+					`{ __type(name: "Dep") { all: fields(includeDeprecated: true) { name } current: fields { name } } }`,
+					`{ __type(name: "Dep") { current: fields { name } all: fields(includeDeprecated: true) { name } } }`,
+					`{ __type(name: "Dep") { all: fields(includeDeprecated: true) { name } no: fields(includeDeprecated: false) { name } } }`,
+					`{ __type(name: "DepE") { all: enumValues(includeDeprecated: true) { name } current: enumValues { name } } }`,
+					`{ __type(name: "DepE") { fields(includeDeprecated: true) { name } enumValues { name } } }`,
+					`{ __schema { types { name all: fields(includeDeprecated: true) { name } current: fields { name } } } }`,
+					`{ __type(name: "N1") { ... on __Type @include(if: false) { name @skip(if: false) } kind } }`,
+					`{ __type(name: "N1") { ... on __Type @skip(if: false) { name @include(if: false) } kind } }`,
+					`{ __type(name: "N1") { name @skip(if: false) @include(if: false) kind } }`,
+					`{ __type(name: "N1") { name @include(if: true) @skip(if: true) kind } }`,
+					`{ __type(name: "N1") { name @include(if: true) @skip(if: false) kind } }`,
+					`{ __typename @skip(if: false) @include(if: false) n1s { id } }`,
+				} {
+					cases = append(cases, Case{Q: q, Dec: "hand-introspection"})
+				}
+				cases = append(cases, Case{Q: `query ($s: Boolean!, $i: Boolean!) { __type(name: "N1") { ...F @skip(if: $s) kind } } fragment F on __Type { name @include(if: $i) }`,
+					Vars: map[string]interface{}{"s": true, "i": true}, Dec: "hand-introspection"},
+					Case{Q: `query ($s: Boolean!, $i: Boolean!) { __type(name: "N1") { ...F @skip(if: $s) kind } } fragment F on __Type { name @include(if: $i) }`,
+						Vars: map[string]interface{}{"s": false, "i": false}, Dec: "hand-introspection"})
 			}
 			idx := 0
 			for _, c := range cases {
